@@ -298,8 +298,20 @@ func hres(parts ...interface{}) string {
 
 func guarded(f func() string) (out string) {
 	defer func() {
-		if r := recover(); r != nil {
+		r := recover()
+		gp, gn := "", false
+		if curCtx != nil {
+			gp, gn = curCtx.afterCall()
+		}
+		if r != nil {
+			if _, ok := r.(stepLimit); ok {
+				panic(r)
+			}
 			out = fmt.Sprintf("PANIC:%v", r)
+		} else if gp != "" {
+			out = "PANIC in a goroutine:" + gp
+		} else if gn {
+			panic(stepLimit{})
 		}
 	}()
 	return f()
